@@ -7,14 +7,17 @@ LEVEL = "model_checking"
 
 def run(ctx: Ctx) -> None:
     agg = sweep(ctx, {"C04"})
+    from mc import computed_sweep
+    comp = computed_sweep.sweep(ctx, {"C04"})
     from mc.checks import c04_api
     api = c04_api.run_api(ctx)
     ctx.coverage.update(
-        states=agg["words"] + api["states"],
+        computed_repetition_sweep=comp,
+        states=agg["words"] + comp["words"] + api["states"],
         transitions=agg["trees"] + agg["words"] + api["transitions"],
         traces_validated_against_impl=agg["words"] + api["states"],
         samples=agg["samples"] + api["samples"],
-        exhaustive=agg["skipped_words"] == 0,
+        exhaustive=agg["skipped_words"] == 0 and comp["skipped_words"] == 0,
         grammars=agg["grammars"], words=agg["words"], members=agg["members"],
         nonmember_words=agg["nonmember_words"], trees_checked=agg["trees"],
         ambiguous_words=agg["ambiguous_words"], forest_caps=agg["forest_caps"],
